@@ -14,6 +14,7 @@ import (
 	"github.com/cloudflare/circl/abe/cpabe/tkn20"
 	"github.com/cloudflare/circl/blindsign/blindrsa"
 	"github.com/cloudflare/circl/blindsign/blindrsa/partiallyblindrsa"
+	"github.com/cloudflare/circl/dh/csidh"
 	bls12381 "github.com/cloudflare/circl/ecc/bls12381"
 	"github.com/cloudflare/circl/group"
 	"github.com/cloudflare/circl/hpke"
@@ -327,6 +328,36 @@ func blindFam() famDef {
 				}
 				return bs
 			},
+		}}
+	}}
+}
+
+// csidhFam: one CSIDH private key and one peer public key used by several callers at once
+// (public-key derivation, validation of the peer's key, key agreement).
+func csidhFam() famDef {
+	return famDef{name: "csidh", kinds: []string{"derive", "pub", "validate"}, build: func(seed uint64) *shared {
+		var sk, peerSk csidh.PrivateKey
+		var peer csidh.PublicKey
+		if csidh.GeneratePrivateKey(&sk, core.NewStream(seed)) != nil || csidh.GeneratePrivateKey(&peerSk, core.NewStream(seed+1)) != nil {
+			panic("HARNESS: csidh.GeneratePrivateKey")
+		}
+		csidh.GeneratePublicKey(&peer, &peerSk, core.NewStream(seed+2))
+		return &shared{ops: map[string]func(uint64) []byte{
+			"pub": func(a uint64) []byte {
+				var pk csidh.PublicKey
+				csidh.GeneratePublicKey(&pk, &sk, core.NewStream(seed+10+a))
+				out := make([]byte, csidh.PublicKeySize)
+				pk.Export(out)
+				return out
+			},
+			"derive": func(a uint64) []byte {
+				var ss [64]byte
+				if !csidh.DeriveSecret(&ss, &peer, &sk, core.NewStream(seed+20+a)) {
+					return []byte("rejected")
+				}
+				return ss[:]
+			},
+			"validate": func(a uint64) []byte { return b2(csidh.Validate(&peer, core.NewStream(seed+30+a))) },
 		}}
 	}}
 }
